@@ -346,6 +346,19 @@ theorem limiter_cleanup (s : Lim) (cutoff : Nat) (inv : LimInv s) :
     LimInv (s.cleanup cutoff) ∧ ∀ e, e ∈ (s.cleanup cutoff).ents ↔ e ∈ s.ents ∧ cutoff ≤ e.2 :=
   lim_cleanup_spec s cutoff inv
 
+/-- **Limiter store histories.** The store has one lock and every method is one
+critical section of it, so every interleaving of `Get` and the background
+`Cleanup` is a sequence of these steps: the invariant (no duplicate key,
+`Len ≤ max maxSize 1`) holds after any such sequence, and a key looked up at
+time `now` survives every `Cleanup` whose cutoff is not later than `now` (a
+client that has just been served keeps its limiter). -/
+theorem limiter_history (ops : List LimOp) (s : Lim) (inv : LimInv s) (hrun : limRun s ops) :
+    LimInv (ops.foldl limStep s) ∧ (ops.foldl limStep s).maxSize = s.maxSize ∧
+    ∀ k now cutoff first, (1000 < s.ents.length → ∃ w, first = some w ∧ w ∈ s.keys) → cutoff ≤ now →
+      (k, now) ∈ ((s.get k now first).cleanup cutoff).ents :=
+  ⟨(lim_history ops s inv hrun).1, (lim_history ops s inv hrun).2,
+   fun k now cutoff first hf h => cleanup_keeps_fresh s k now cutoff first inv hf h⟩
+
 /-! ## facts regenerated from the tree -/
 
 /-- Every table size the code produces keeps its growth threshold strictly
@@ -383,6 +396,14 @@ theorem cache_methods_delegate :
     SdnsVerif.Gen.C16.cache_delegations =
       ["Add:SetWithCap", "ForEach:ForEach", "Get:Get", "Len:Len", "Remove:Del", "Stop:Stop"] ∧
     SdnsVerif.Gen.C16.segmap_trylocks = 0 := by
+  decide
+
+/-- The critical sections the limiter model treats as atomic ARE single
+sections of the store's one lock (`Cleanup`: one `Lock`, no `RLock`, scan and
+delete together), and the length readers (`Len`, `SegmentCount`) take no lock
+at all — nothing a writer could queue behind. -/
+theorem limiter_sections_and_lockfree_len :
+    SdnsVerif.Gen.C16.limiter_cleanup_locks = [1, 0] ∧ SdnsVerif.Gen.C16.len_functions_touching_locks = [] := by
   decide
 
 /-- Every mutating method of the segmented table and the compare-then-act of
@@ -434,6 +455,10 @@ example : ((SegMap.new 4 0 : SegMap Nat).set realHashes 1 10).get realHashes 1 =
     (IReach.step (IReach.refl _)
       ((ops_are_interleaving_steps realHashes_ok (segmap_new_spec realHashes 4 0).1 1 10 [0, 0]).1)) 1).1
   rw [h, (segmap_refines realHashes_ok (segmap_new_spec realHashes 4 0).1 1 10).2.1.2.1 1, if_pos rfl]
+
+example : limRun ⟨[(2, 9), (1, 5)], 2⟩ [LimOp.get 3 10 none, LimOp.cleanup 6, LimOp.get 2 11 none] :=
+  ⟨by intro h; simp at h, trivial, by intro h; exact absurd h (by decide), trivial⟩
+example : ((([LimOp.get 3 10 none, LimOp.cleanup 6] : List LimOp).foldl limStep ⟨[(2, 9), (1, 5)], 2⟩).keys) = [3, 2] := by decide
 
 example : CReach 2 ⟨2, 0⟩ ⟨2, 0⟩ ∧ CReach 2 ⟨2, 0⟩ ⟨3, 1⟩ :=
   ⟨CReach.refl _, CReach.step (CReach.refl _) (CStep.insert ⟨2, 0⟩ true)⟩
